@@ -435,6 +435,10 @@ func dependsOn(v ssa.Value, pred func(ssa.Value) bool) bool {
 		switch x := v.(type) {
 		case *ssa.UnOp:
 			if x.Op == token.MUL {
+				if o := origin(x); o != ssa.Value(x) {
+					// local variable in memory with a unique reaching definition
+					return walk(o, depth+1)
+				}
 				if walk(x.X, depth+1) {
 					return true
 				}
